@@ -263,6 +263,138 @@ def runAbandoned (ops : BufOps β) (cfg : Cfg) (host t0host : Bytes) (strm : Nat
   let fl := flushOutput ops cfg host t0host strm st.1.buf st.2.1
   { buf := fl.1, rc := st.2.1, ems := st.2.2 ++ fl.2 }
 
+/-! ### the poll / read / report loop of `_rsh_thread` for ONE worker, as a transition system
+
+  The environment decides everything the worker does not: when bytes arrive on which descriptor, when
+  the remote side closes it, which descriptors an `xpoll` return reports, how many bytes the one
+  `read(2)` of a handler call delivers (a SHORT read: `cap`; `cap = 0` on a descriptor that holds data
+  = a spurious wake-up, the read says EAGAIN), and when `xpoll` is interrupted (EINTR without a
+  timeout: `continue`).  `cbuf_get_fd` retries a read that fails with EINTR, so that never shows.
+  Leaving the loop early (command timeout, poll error: `break`) = stopping the event list anywhere;
+  `workerFinish` is what follows the loop in every case: the two `_flush_output` calls. -/
+
+/-- what one `read(2)` can see of the descriptor: at most `cap` bytes -/
+def visible (cap : Option Nat) (pipe : Bytes) : Bytes :=
+  match cap with
+  | none => pipe
+  | some k => pipe.take k
+
+/-- `_handle_rcmd_stdout/_stderr` when the `read(2)` inside delivers at most `cap` bytes
+    (`none` = whatever the descriptor holds, up to the request: `handle`) -/
+def handleCap (ops : BufOps β) (cfg : Cfg) (host : Bytes) (strm : Nat) (readRc : Bool) (cap : Option Nat)
+    (s : Stream β) (rc : Int) : Int × Stream β × Int × List Em :=
+  let vis := visible cap s.pipe
+  let d := doOutput ops cfg host strm readRc s.buf rc vis (s.weof && decide (vis.length = s.pipe.length))
+  (d.ret, { s with buf := d.buf, pipe := s.pipe.drop d.took, closed := decide (d.ret ≤ 0) }, d.rc, d.ems)
+
+/-- the handler when its read(2) FAILS with an error other than EAGAIN / EINTR (`_do_output`:
+    `err ("%p: %S: read: %m\n", t->host); return (-1);`): one diagnostic on pdsh's stderr (its text names the
+    program, the local host and strerror: the model says `diag`), nothing is consumed, what the buffer holds
+    stays there for `_flush_output`, and the handler closes the descriptor -/
+def handleFail (s : Stream β) (rc : Int) : Int × Stream β × Int × List Em :=
+  (-1, { s with closed := true }, rc, [diag])
+
+/-- the loop after the remote side has closed when every read is limited to `cap` bytes: handler calls
+    (`sstep .. (.call cap)` each) until one returns <= 0; (number of calls, last return value, ...) -/
+def drainCap (ops : BufOps β) (cfg : Cfg) (host : Bytes) (strm : Nat) (readRc : Bool) (cap : Option Nat) :
+    Nat → Stream β → Int → List Em → Nat → Nat × Int × Stream β × Int × List Em
+  | 0, s, rc, acc, k => (k, 1, s, rc, acc)
+  | fuel + 1, s, rc, acc, k =>
+    let (r, s', rc', e) := handleCap ops cfg host strm readRc cap s rc
+    if r ≤ 0 then (k + 1, r, s', rc', acc ++ e)
+    else drainCap ops cfg host strm readRc cap fuel s' rc' (acc ++ e) (k + 1)
+
+/-- events of one descriptor -/
+inductive SEv where
+  | arrive (b : Bytes)          -- the remote side writes (ignored once it has closed)
+  | hup                         -- the remote side closes
+  | call (cap : Option Nat)     -- the worker calls the handler (not once the descriptor is closed: fd = -1)
+  deriving Repr
+
+/-- state of one descriptor of a worker: stream, th->rc as this handler sees it, its stdio calls -/
+abbrev SState (β : Type) := Stream β × Int × List Em
+
+def sstep (ops : BufOps β) (cfg : Cfg) (host : Bytes) (strm : Nat) (readRc : Bool) (st : SState β) :
+    SEv → SState β
+  | .arrive b => if st.1.weof then st else ({ st.1 with pipe := st.1.pipe ++ b }, st.2)
+  | .hup => ({ st.1 with weof := true }, st.2)
+  | .call cap =>
+    if st.1.closed then st
+    else
+      let r := handleCap ops cfg host strm readRc cap st.1 st.2.1
+      (r.2.1, r.2.2.1, st.2.2 ++ r.2.2.2)
+
+/-- one worker: its two descriptors and ALL its stdio calls in the order it makes them (tagged with the
+    descriptor whose handler made them).  `_handle_rcmd_stderr` passes read_rc = false: it neither reads
+    nor writes th->rc, so the stderr side carries a constant 0 there. -/
+structure Worker (β : Type) where
+  out : SState β
+  err : SState β
+  log : List (Bool × Em)
+
+inductive PEv where
+  | arrive (isErr : Bool) (b : Bytes)
+  | hup (isErr : Bool)
+  | eintr                                    -- xpoll: -1/EINTR, no timeout -> `continue`
+  | poll (o e : Option (Option Nat))         -- xpoll returns: per descriptor `none` = not reported,
+                                             -- `some cap` = reported (XPOLLREAD|XPOLLERR), handler called
+  deriving Repr
+
+/-- `while (xpfds[0].fd >= 0 || xpfds[1].fd >= 0)` is over -/
+def Worker.loopLeft (w : Worker β) : Bool := w.out.1.closed && w.err.1.closed
+
+def Worker.on (ops : BufOps β) (cfg : Cfg) (host : Bytes) (w : Worker β) (isErr : Bool) (ev : SEv) : Worker β :=
+  if isErr then
+    let st' := sstep ops cfg host 2 false w.err ev
+    { w with err := st', log := w.log ++ (st'.2.2.drop w.err.2.2.length).map (fun x => (true, x)) }
+  else
+    let st' := sstep ops cfg host 1 true w.out ev
+    { w with out := st', log := w.log ++ (st'.2.2.drop w.out.2.2.length).map (fun x => (false, x)) }
+
+/-- "ready or closed ?": the handler of descriptor `isErr` is called iff xpoll reported it -/
+def Worker.onReported (ops : BufOps β) (cfg : Cfg) (host : Bytes) (w : Worker β) (isErr : Bool)
+    (c : Option (Option Nat)) : Worker β :=
+  match c with
+  | some cap => w.on ops cfg host isErr (.call cap)
+  | none => w
+
+def pollStep (ops : BufOps β) (cfg : Cfg) (host : Bytes) (w : Worker β) : PEv → Worker β
+  | .arrive i b => w.on ops cfg host i (.arrive b)
+  | .hup i => w.on ops cfg host i .hup
+  | .eintr => w
+  | .poll o e =>
+    if w.loopLeft then w
+    else (w.onReported ops cfg host false o).onReported ops cfg host true e     -- stdout first, then stderr
+
+def Worker.init (b0 : β) : Worker β :=
+  { out := ({ buf := b0, pipe := [], weof := false, closed := false }, 0, []),
+    err := ({ buf := b0, pipe := [], weof := false, closed := false }, 0, []), log := [] }
+
+/-- after the loop, however it was left: `_flush_output (outbuf)`, `_flush_output (errbuf)`;
+    the result is every stdio call of the worker, in order -/
+def workerFinish (ops : BufOps β) (cfg : Cfg) (host t0host : Bytes) (w : Worker β) : List (Bool × Em) :=
+  w.log ++ (flushOutput ops cfg host t0host 1 w.out.1.buf w.out.2.1).2.map (fun x => (false, x)) ++
+    (flushOutput ops cfg host t0host 2 w.err.1.buf w.err.2.1).2.map (fun x => (true, x))
+
+/-- a whole worker run: any event list, then the flushes -/
+def workerRun (ops : BufOps β) (cfg : Cfg) (host t0host : Bytes) (b0 : β) (evs : List PEv) : List (Bool × Em) :=
+  workerFinish ops cfg host t0host (evs.foldl (pollStep ops cfg host) (Worker.init b0))
+
+/-! ### pdcp / rpdcp: `_parallel_copy` relays the remote STDERR (only), with the same two functions
+
+    rv = th->pcp_Popt ? _pcp_server (th) : _pcp_client (th);
+    if ((!th->pcp_Popt && rv < 0) || th->pcp_Popt) {
+        while (_handle_rcmd_stderr (th) > 0) ;
+        _flush_output (th->errbuf, (out_f) err, th);
+    }
+
+  The descriptor is blocking here (`_rcp_thread` does not make it non-blocking): every handler call finds
+  at least one byte or EOF -- a `runStream` whose script has no empty arrival.  A pdcp client that succeeds
+  (rv >= 0, not -P) never reads the remote stderr. -/
+def parallelCopyStderr (ops : BufOps β) (cfg : Cfg) (host t0host : Bytes) (popt : Bool) (rv : Int) (b : β)
+    (script : List Bytes) : List Em :=
+  if popt ∨ rv < 0 then (runStream ops cfg host t0host 2 false b script).ems else []
+
 /-! ### instance 1: the index-level model of cbuf.c -/
 
 def indexOps : BufOps Cbuf.Cbuf where
